@@ -23,6 +23,7 @@ package main
 // object), never through sftpfs.  <content> is hex for up to 256 bytes, "#<len>:<fnv1a64>" above.
 
 import (
+	"bytes"
 	"errors"
 	"fmt"
 	"hash/fnv"
@@ -138,12 +139,12 @@ func ancestors(k string) []string {
 }
 
 const (
-	oWRONLY = 1
-	oRDWR   = 2
-	oCREATE = 0x40
-	oEXCL   = 0x80
-	oTRUNC  = 0x200
-	oAPPEND = 0x400
+	oWRONLY  = 1
+	oRDWR    = 2
+	oCREATE  = 0x40
+	oEXCL    = 0x80
+	oTRUNC   = 0x200
+	oAPPEND  = 0x400
 	flagMask = 3 | oCREATE | oEXCL | oTRUNC | oAPPEND
 )
 
@@ -319,6 +320,13 @@ func (st *implState) exec(t []string) string {
 			n, err = h.f.WriteAt(b, atoi64(t[3]))
 		}
 		return fmt.Sprintf("n=%d err:%s pre=%s post=%s", n, wErrClass(err), contentStr(pre), contentStr(h.srv()))
+	case "copyout": // io.Copy out of the handle into a plain writer: io.WriterTo if the handle has it, Read until io.EOF otherwise
+		if !h.rd {
+			return "skip"
+		}
+		var cb bytes.Buffer
+		_, cerr := io.Copy(struct{ io.Writer }{&cb}, h.f)
+		return fmt.Sprintf("bytes=%s err:%s srv=%s", contentStr(cb.Bytes()), errClass(cerr), contentStr(h.srv()))
 	case "read", "readat":
 		if !h.rd {
 			return "skip" // the backend turns a read on a write-only handle into a write of zeros
